@@ -3611,7 +3611,13 @@ public:
 
     //! @brief Replaces the contents of the container with the elements from
     //!     `[first; last)` range
-    template<typename InputIt, typename = enable_if_writable_t<Byte, InputIt>>
+    template<
+        typename InputIt,
+        typename = detail::enable_if_t<
+            !std::is_const<Byte>::value
+            && std::is_convertible<
+                typename std::iterator_traits<InputIt>::iterator_category,
+                std::input_iterator_tag>::value>>
     SBEPP_CPP20_CONSTEXPR void assign(InputIt first, InputIt last) const
     {
         auto begin = data_unchecked();
